@@ -38,6 +38,12 @@ from vlib import onionref, wire
 from vlib.harness import Watch, LogCapture
 from vlib.runner import Result
 
+
+def _tor_protocol_error():
+    from txtorcon.torcontrolprotocol import TorProtocolError
+    return TorProtocolError
+
+
 PROPERTY = "C15"
 FAILED_REASONS = ["UPLOAD_REJECTED", "UNEXPECTED", "UPLOAD_REJECTED", "UNEXPECTED", "UPLOAD_REJECTED", None]
 LEVEL = "exploration"
@@ -318,7 +324,7 @@ def _execute(case, steps):
                     want = want_u = "failure"
                 got = None if w.pending else ("failure" if w.failed else "success")
                 if code is not None and replied and ob.mismatch is None and w.failed and not (
-                        type(w.failure.value).__name__ == "TorProtocolError" and
+                        isinstance(w.failure.value, _tor_protocol_error()) and
                         getattr(w.failure.value, "code", None) == code):
                     ob.problems.append(("rejected-command-wrong-error",
                                         "Tor answered %d, create() -> %r" % (code, w.outcome())))
